@@ -186,7 +186,7 @@ class StereoCondensedReactionGraph(StereoMolGraph, CondensedReactionGraph):
     def delete_atom_stereo_change(
         self, atom: AtomId, stereo_change: Optional[Change] = None
     ):
-        if stereo_change is None:
+        if stereo_change is None or atom not in self._atom_stereo_change:
             del self._atom_stereo_change[atom]
         else:
             del self._atom_stereo_change[atom][stereo_change]
@@ -195,7 +195,7 @@ class StereoCondensedReactionGraph(StereoMolGraph, CondensedReactionGraph):
         self, bond: Iterable[AtomId], stereo_change: Optional[Change] = None
     ):
         bond = Bond(bond)
-        if stereo_change is None:
+        if stereo_change is None or bond not in self._bond_stereo_change:
             del self._bond_stereo_change[bond]
         else:
             del self._bond_stereo_change[bond][stereo_change]
